@@ -424,6 +424,9 @@ def gen_case(rng, maxlen):
                 t = rand_target(True)
                 if t:
                     keys.append(["/".join(t[0]), t[1], t[2], t[3]])
+            if rng.random() < 0.1:          # a node_values key that matches no node: a warning, nothing else changes
+                lib0 = OPLIB[ops[0]["name"]]
+                keys.append(["/".join(list(rng.choice(tree_nodes(cur, root))[0])[:-1] + ["Z"]), ops[0]["name"], lib0["consts"][0], dy8(rng)])
             ev = []
             if rng.random() < 0.5:
                 alle = collect(cur, root)
